@@ -27,6 +27,8 @@ deriving DecidableEq, Repr
 structure Edge where
   store : Option Bool
   func : Bool
+  /-- the clock is read and the deadline of a timed wait computed on the way (the `DEADLINE` marker of the translator) -/
+  clock : Bool
   next : Next
 deriving DecidableEq, Repr
 
